@@ -152,6 +152,8 @@ static void check_node(struct vnode* v) {
 
 /* ---------- construction ---------- */
 
+static int leaf_histories;      /* generated cases only: the fixed grids need exact lengths */
+
 static int add_leaf(vh_rng* r, int kind, int n, var* keep) {
   struct vnode* v = &V[nv];
   memset(v, 0, offsetof(struct vnode, ref));
@@ -174,6 +176,26 @@ static int add_leaf(vh_rng* r, int kind, int n, var* keep) {
     else { push(v->obj, $I(x)); }
   }
   snprintf(v->desc, sizeof v->desc, "%s[%d]", VNAME[kind], n);
+  if (leaf_histories && (kind == V_ARRAY || kind == V_LIST || kind == V_TUPLE) && vh_chance(r, 60)) {
+    /* a history of insertions and removals at both ends and in the middle: the links / cursors the walk relies on
+       must survive it (not only containers that were filled by push) */
+    int steps = 1 + (int)vh_below(r, 6);
+    for (int k = 0; k < steps; k++) {
+      int64_t x = vh_range(r, 40, 60);
+      var xo = kind == V_TUPLE ? (var)new(Int, $I(x)) : (var)$I(x);
+      int m = v->nref;
+      switch (vh_below(r, 6)) {
+        case 0: if (m > 0) { pop_at(v->obj, $I(0)); memmove(&v->ref[0], &v->ref[1], sizeof(struct item) * (size_t)(m - 1)); v->nref--; } break;
+        case 1: if (m > 0) { pop(v->obj); v->nref--; } break;
+        case 2: if (m > 1) { int at = 1 + (int)vh_below(r, (uint64_t)m - 1); pop_at(v->obj, $I(at)); memmove(&v->ref[at], &v->ref[at + 1], sizeof(struct item) * (size_t)(m - at - 1)); v->nref--; } break;
+        case 3: if (m > 0 && m < MAXREF - 1) { push_at(v->obj, xo, $I(0)); memmove(&v->ref[1], &v->ref[0], sizeof(struct item) * (size_t)m); v->ref[0].arity = 0; v->ref[0].v[0] = x; v->nref++; } break;
+        case 4: if (m > 1 && m < MAXREF - 1) { int at = 1 + (int)vh_below(r, (uint64_t)m - 1); push_at(v->obj, xo, $I(at)); memmove(&v->ref[at + 1], &v->ref[at], sizeof(struct item) * (size_t)(m - at)); v->ref[at].arity = 0; v->ref[at].v[0] = x; v->nref++; } break;
+        default: if (m < MAXREF - 1) { push(v->obj, xo); v->ref[m].arity = 0; v->ref[m].v[0] = x; v->nref++; } break;
+      }
+    }
+    snprintf(v->desc, sizeof v->desc, "%s[%d after %d edits]", VNAME[kind], v->nref, steps);
+    vh_count("leaves_with_an_edit_history");
+  }
   if (kind == V_TABLE || kind == V_TREE) {
     /* the iteration order of a map is its own business (C02/C03); observe it once, then it is the reference */
     int k = 0;
@@ -341,6 +363,7 @@ static void __attribute__((noinline)) case_random(vh_rng* r, long index) {
   memset(keep, 0, sizeof keep);
   nv = 0;
   (void)index;
+  leaf_histories = 1;
   /* leaves */
   int nleaf = 3 + (int)vh_below(r, 3);
   for (int i = 0; i < nleaf; i++) {
@@ -404,6 +427,7 @@ static void __attribute__((noinline)) case_random(vh_rng* r, long index) {
 static void __attribute__((noinline)) fixed(void) {
   var keep[MAXNODE];
   vh_rng r; vh_rng_seed(&r, 11);
+  leaf_histories = 0;
   /* every leaf kind at every length 0..12, with its reverse view */
   for (int kind = 0; kind < 5; kind++) {
     for (int n = 0; n <= 12; n++) {
